@@ -21,6 +21,9 @@ func runC07(c *Ctx) {
 	r02_3(c, "R07.4a")
 	r02_5(c, "R07.4b")
 	r07_5(c, "R07.5")
+	// "never requests ... special files": the requestable predicate is the
+	// full-type-mask test both ends share (shared with C06)
+	r06_2(c, "R07.10")
 	r04_5(c, "R07.6a")
 	r04_4recv(c, "R07.6b")
 	// the goroutine that forwards STATs to the writer must never wait on a
